@@ -64,7 +64,7 @@ DISCS = [DISC1, DISC2, DISC3, Coll("list", DISC1), Opt(DISC3)]
 OBJECTS = [A, B, C, D, E, F, G, H, I_, J, JA, TD1, TD2, NT, NODE, PQ_P, K_, L_, M_, N_, FB2]
 
 
-def type_pool(tier: str) -> List[TD]:
+def type_pool(tier: str, python_objects: bool = False) -> List[TD]:
     prims = [INT, FLOAT, STR, BOOL, NONE]
     constrained = [
         Ann(INT, cons(min=0, max=10)),
@@ -140,6 +140,8 @@ def type_pool(tier: str) -> List[TD]:
     lits = [Lit((1, 2)), Lit(("a", "b")), Lit((1, "a")), Lit((True,)), Lit((0,)), COLOR, NAME, Opt(COLOR)]
     news = [USERID, POS, Ann(POS, cons(max=10)), Coll("list", POS), Opt(POS)]
     anys = [AnyT(), Coll("list", AnyT()), Mapp(STR, AnyT()), Ann(AnyT(), cons(min=0, min_len=1, max_items=1))]
+    if python_objects:  # C03 only: positions where an arbitrary datum must be hashed
+        anys += [Coll("set", AnyT()), Coll("frozenset", AnyT()), Ann(Coll("list", AnyT()), cons(unique=True)), Mapp(AnyT(), INT)]
     pool = prims + constrained + colls + tups + maps + opts + unis + lits + news + anys + OBJECTS + DISCS
     if tier == "thorough":
         pool += [Coll(k, o) for k in ("list", "set", "tuplevar") for o in (A, B, TD1, NT) if not (k == "set")]
@@ -307,12 +309,38 @@ def random_value(rng: random.Random, depth: int = 3) -> Any:
     return {rng.choice(["a", "b", "A", "x1", "zz", "value", "children", "k"]): random_value(rng, depth - 1) for _ in range(rng.randint(0, 3))}
 
 
-def data_pool(td: TD, tier: str, rng: random.Random) -> List[Any]:
+# "any Python object passed as data" (C03): values outside the JSON classes, and JSON containers
+# holding them / keyed by them.  Only used by the crash / purity clauses (no reference semantics).
+PYTHON_OBJECTS: List[Any] = [10**5000, -(10**5000), float("inf"), float("nan"), (1, 2), {1, 2}, frozenset(), b"x", 1 + 2j, Ellipsis, range(2), {1: "x", "a": "y"}, {None: 1, 2.5: 2}, [{"a": 1}, {1: 2, "b": 3}], [[1], [1]], [{}, {}]]
+
+
+def python_object_mutants(d: Any) -> List[Any]:
+    """the datum with a non-string key added to each of its dicts (top level and first level)"""
+    out: List[Any] = []
+    if isinstance(d, dict):
+        first = next(iter(d.values()), None)
+        out.append({**d, 1: first})
+        out.append({1: None, **d})
+        for k, v in d.items():
+            if isinstance(v, dict):
+                out.append({**d, k: {**v, 1: next(iter(v.values()), None)}})
+                break
+    elif isinstance(d, list) and d:
+        if isinstance(d[0], dict):
+            out.append([{**d[0], 1: next(iter(d[0].values()), None)}] + d[1:])
+        out.append(d + [(1, 2)])
+    return out
+
+
+def data_pool(td: TD, tier: str, rng: random.Random, python_objects: bool = False) -> List[Any]:
     seen = set()
     out: List[Any] = []
 
     def add(x):
-        k = repr(x) + str(_typesig(x))
+        try:
+            k = repr(x) + str(_typesig(x))
+        except ValueError:  # an integer past the str-conversion limit
+            k = f"int:{x.bit_length()}:{x > 0}" if isinstance(x, int) else str(id(x))
         if k not in seen:
             seen.add(k)
             out.append(x)
@@ -327,6 +355,12 @@ def data_pool(td: TD, tier: str, rng: random.Random) -> List[Any]:
         add(copy.deepcopy(a))
     for _ in range(6 if tier == "quick" else 40):
         add(random_value(rng))
+    if python_objects:
+        for x in PYTHON_OBJECTS:
+            add(copy.deepcopy(x))
+        for s_ in samples[:3]:
+            for m in python_object_mutants(s_):
+                add(m)
     return out
 
 
